@@ -207,8 +207,8 @@ def _ends_nl(e: ast.AST, ok_vars: Set[str]) -> bool:
         return _ends_nl(e.right, ok_vars)
     if isinstance(e, ast.Name):
         return e.id in ok_vars
-    if isinstance(e, ast.Call) and norm(e.func) == "self._format_header":
-        return True
+    if isinstance(e, ast.Call) and isinstance(e.func, ast.Attribute) and e.func.attr == "_format_header":
+        return True  # every return of Stack._format_header is itself checked to end in a newline
     if isinstance(e, ast.IfExp):
         return _ends_nl(e.body, ok_vars) and _ends_nl(e.orelse, ok_vars)
     return False
